@@ -22,6 +22,14 @@ def install(instr, H, probes, iter_hooks):
         _install_c13(instr, H)
     if 'c14' in probes:
         _install_dirs(instr, H)
+    if 'c19' in probes:
+        import dfols.controller as dc
+        orig_qr = dc.qr_rank
+
+        def qr_rank(*a, **kw):
+            H.qr_rank_calls = getattr(H, 'qr_rank_calls', 0) + 1
+            return orig_qr(*a, **kw)
+        instr._patch(dc, 'qr_rank', qr_rank)
     if 'c16' in probes:
         from . import model_oracles as MO
         iter_hooks.append(MO.hook_identities)
